@@ -183,6 +183,16 @@ func c13Archive(r *gen.RandT, container string) ([]byte, *refcar.Archive, lab.Cf
 			Index: refcar.BuildIndex(refcar.CodecIndexSorted, refcar.ExpectedIndexRecords(ref, refcar.CodecIndexSorted, true))})
 	case "v2-indexless":
 		file = refcar.EncodeV2(payload, refcar.V2Opts{DataPadding: uint64(r.Intn(4))})
+	case "v2-nullpad-payload":
+		// the declared payload ends in null bytes (a CARv1 that was padded, then wrapped): with
+		// ZeroLengthSectionAsEOF the sections end where the padding starts, in a CARv2 as in a CARv1
+		cfg.ZeroEOF = true
+		padded := append(append([]byte{}, payload...), make([]byte, 1+r.Intn(30))...)
+		o := refcar.V2Opts{DataPadding: uint64(r.Intn(3))}
+		if r.Intn(2) == 0 {
+			o.Index = refcar.BuildIndex(refcar.CodecMhIndexSorted, refcar.ExpectedIndexRecords(ref, refcar.CodecMhIndexSorted, false))
+		}
+		file = refcar.EncodeV2(padded, o)
 	}
 	a, err := refcar.Decode(file, cfg.ZeroEOF)
 	if err != nil {
@@ -203,7 +213,7 @@ func inspect(file []byte, validate bool, opts ...carv2.Option) (carv2.Stats, err
 	return rd.Inspect(validate)
 }
 
-var c13Containers = []string{"v1", "v1-nullpad", "v2", "v2-pad", "v2-indexless"}
+var c13Containers = []string{"v1", "v1-nullpad", "v2", "v2-pad", "v2-indexless", "v2-nullpad-payload"}
 
 func runC13(t *mon.T, raw json.RawMessage) {
 	var d c13Desc
@@ -425,6 +435,15 @@ func runC13(t *mon.T, raw json.RawMessage) {
 			t.Cover("typed:" + class)
 			if reject && err == nil {
 				t.ViolateD("Inspect(true)/"+class+"/accepted", map[string]any{"input": fmt.Sprintf("%x", in)}, "Inspect(true) accepts a %s archive corrupted by: %s", container, class)
+			}
+			// Inspect(true) IS the request to verify: a Reader opened with WithTrustedCAR (an option that
+			// lets the block reader skip hashing) must give the same verdict
+			_, errT := inspect(in, true, append(cfg.Opts(), carv2.WithTrustedCAR(true))...)
+			t.Events(1)
+			t.Cover("typed:with-trusted-car")
+			if (err == nil) != (errT == nil) {
+				t.ViolateD("Inspect(true)/"+class+"/verdict-depends-on-WithTrustedCAR", map[string]any{"input": fmt.Sprintf("%x", in)},
+					"Inspect(true) says %v, on a Reader opened with WithTrustedCAR(true) it says %v", err, errT)
 			}
 			// the same on ONE Reader after a non-validating pass: what Inspect(true) reports must not
 			// depend on what was asked of the Reader before
